@@ -49,6 +49,9 @@ CLAIMS = {
  "C01": ("abstract interpretation of the repo's AST on (g.A, g.C) and (A, C) over a polynomial element domain ((g.A)*(g.C) == g.(A*C) as a bilinear polynomial identity; options travel with their axes)",
          "Decides, as an identity of bilinear polynomials in a fully symbolic image and a fully symbolic non-invariant filter -- hence for all real images and filters -- that convolution commutes with the generators of B_D (implying all 8/48 elements) with result type (k+k', p+p'), for toroidal wrap, zero SAME, VALID and symmetric explicit padding incl. even-sided filters, filter dilation, image dilation, all torus-flag patterns and non-square images when flags/dilations/paddings travel with their axes, and with cyclic shifts on wrapped axes; convolve_with declares parity p+p'.",
          "Trusted: conv/pad models; unit stride (as in the statement); the configuration box is finite.", "3/C01"),
+ "C05": ("abstract interpretation of the repo's AST on operands and their g-transforms (op(g.a,g.b) == g acting with the declared (k,parity) on op(a,b), as exact terms); induction over expression trees",
+         "Decides for every operation of the algebra, operand types k<=3 (D=2) / k<=2 (D=3), both parities and all index choices that the result's declared (k, parity) is exactly how it transforms under the generators of B_D incl. a reflection (so parity bookkeeping errors are visible); since every operation preserves typing, every finite expression is type-sound by induction, without a depth bound. Also decides rejection of mismatched operands, parity mod 2, symmetry of contractions and commutativity of the product up to transposition.",
+         "Trusted: einsum/tensordot models; norm = sqrt(sum of squares); the induction step (composition of type-preserving operations).", "3/C05"),
 }
 
 NA_REASON = "check not built yet in this session (build in progress); see DESIGN.md section 3 for the planned static rule"
